@@ -65,12 +65,31 @@ def bind(shape, mode, base=False):
     return out, None
 
 
+def kid_wants(shape, want):
+    """Pairs (child shape, expectation of the child) of a collection shape."""
+    if want["k"] == "map":
+        flat = [w for pair in want["v"] for w in pair]
+    else:
+        flat = list(want["v"])
+    return list(zip(shape["kids"], flat)) if len(flat) == len(shape["kids"]) else []
+
+
+def culprit(shape, want, mode):
+    """The innermost value that, bound on its own, is already not the expected term (diagnostics / signature only)."""
+    for kid, kw in kid_wants(shape, want):
+        out, err = bind(kid, mode)
+        if err is not None or not cqllex.mirror_term_accepts(kw, out):
+            return culprit(kid, kw, mode)
+    return shape
+
+
 def signature(shape, want, mode, out):
     if cqllex.has_subclass(shape):
         bout, berr = bind(shape, mode, base=True)
         if berr is None and cqllex.mirror_term_accepts(want, bout):
             return SUBCLASS_SIG
-    return "Encoder:%s:%s" % (shape["tag"], "raises" if out is None else "not-the-expected-single-term")
+    tag = culprit(shape, want, mode)["tag"]
+    return "Encoder:%s:%s" % (cqllex.SUBCLASS_BASE.get(tag, tag), "raises" if out is None else "not-the-expected-single-term")
 
 
 class _Phases:
